@@ -964,6 +964,16 @@ impl Interpreter {
 
         // Restore environment and finalize exports if we used a module environment
         if let (Some(saved), Some(module_env)) = (saved_env, module_env) {
+            if let Ok(StepResult::Suspended { .. }) = &result {
+                // The run continues through step(): the module environment must stay
+                // installed while the module body is suspended; step() restores the
+                // environment and stores the exports when the run completes.
+                self.active_module_path = module_path;
+                self.active_saved_env = Some(saved);
+                self.active_module_env = Some(module_env);
+                return result;
+            }
+
             self.env = saved;
 
             // If execution completed successfully, store the main module exports
